@@ -66,17 +66,12 @@ class Config(CIBaseModel):
 
     @model_validator(mode='after')
     def normalize_search_paths(self):
-        """Resolve search paths and initialize the global configuration
-        singleton."""
+        """Resolve search paths (the global configuration singleton is
+        initialized by the last validator, `resolve_paths`)."""
 
-        global _config
         if _config is not None:
             raise RuntimeError('Config has already been initialized.')
-        try:
-            self._normalize_path()
-        finally:
-            _config = self
-
+        self._normalize_path()
         return self
 
     @model_validator(mode='after')
@@ -99,6 +94,12 @@ class Config(CIBaseModel):
                 'weather_data_dir',
                 Path(self.file_location(self.weather.weather_data_dir)).resolve(),
             )
+
+        # Only a completely validated instance becomes the global
+        # configuration singleton: a load that fails (e.g. because a file
+        # cannot be found) must leave the system unconfigured.
+        global _config
+        _config = self
         return self
 
     def file_location(self, f: Path | str) -> Path:
